@@ -39,23 +39,28 @@ def gen_case(rng, pat, max_tags):
     rng.shuffle(tags)
     branch = [t for t in tags if rng.random() < 0.6]
     return dict(pat=pat, cfgver=cfgver, all=tags, branch=branch, scope=rng.choice(["default", "global", "branch"]), ignore=rng.random() < 0.2,
-                cli_scope=(rng.choice(["default", "global", "branch"]) if rng.random() < 0.35 else None),
+                cli_scope=(rng.choice(["default", "global", "branch"]) if rng.random() < 0.35 else None), fetch_fails=rng.random() < 0.12,
                 setver=(rng.choice(pool) if rng.random() < 0.25 else None), flags=spec["flags"])
 
 
 def _run_fake(case, tags_all, tags_branch, d):
     proj = project.Project(os.path.join(d, "p"), gitfile=(len(case["all"]) % 3 == 1))       # some projects are linked worktree / submodule checkouts (.git is a file)
     fv = fakevcs.FakeVCS(os.path.join(d, "fake"))
-    fv.set(tags=tags_all, tags_branch=tags_branch, status="", remote="", branches="")
+    if case.get("fetch_fails"):
+        # a remote is configured, fetching is on and the fetch fails: the run may stop, it must not go on as if there were no tags
+        fv.set(tags=tags_all, tags_branch=tags_branch, status="", remote="", branches="* main 1234abc [origin/main] msg\n", fail=["fetch"])
+    else:
+        fv.set(tags=tags_all, tags_branch=tags_branch, status="", remote="", branches="")
     k = len(case["all"]) + len(case["cfgver"])
     proj.write(*project.config_file(["bumpver.toml", "bumpver.toml", "setup.cfg", "pyproject.toml"][k % 4], case["cfgver"], case["pat"], [("f.txt", ["{version}"])], extra={"tag_scope": case["scope"]}, variant=k // 4))
     proj.write("f.txt", "v %s\n" % case["cfgver"])
-    r1 = drive.cli(["show", "--no-fetch"] + (["--ignore-vcs-tag"] if case["ignore"] else []), cwd=proj.root, env=fv.env())
+    nofetch = [] if case.get("fetch_fails") else ["--no-fetch"]
+    r1 = drive.cli(["show"] + nofetch + (["--ignore-vcs-tag"] if case["ignore"] else []), cwd=proj.root, env=fv.env())
     shown = None
     for ln in r1.stdout.splitlines():
         if ln.startswith("Current Version: "):
             shown = ln[len("Current Version: "):]
-    args = ["update", "--dry", "--no-fetch", "--date", DATE] + (["--ignore-vcs-tag"] if case["ignore"] else [])
+    args = ["update", "--dry"] + nofetch + ["--date", DATE] + (["--ignore-vcs-tag"] if case["ignore"] else [])
     args += (["--tag-scope", case["cli_scope"]] if case.get("cli_scope") else [])
     args += (["--set-version", case["setver"]] if case["setver"] else case["flags"])
     r2 = drive.cli(args, cwd=proj.root, env=fv.env())
@@ -79,7 +84,8 @@ def replay(job):
     with drive.scratch_dir("c09") as d:
         c1, shown_clean, c2, _ = _run_fake(case, [t for t in case["all"] if valid(t)], [t for t in case["branch"] if valid(t)], d)
     return dict(ev="resolve", P=glue.parse_pattern(case["pat"]), cfgver=glue.cp(case["cfgver"]), all=[glue.cp(t) for t in case["all"]], branch=[glue.cp(t) for t in case["branch"]],
-                scope=case["scope"], uscope=case.get("cli_scope") or case["scope"], ignore=case["ignore"], show=glue.cp(shown) if shown else [0], show_clean=glue.cp(shown_clean) if shown_clean else [0],
+                scope=case["scope"], uscope=case.get("cli_scope") or case["scope"], ignore=case["ignore"], fetch_fails=bool(case.get("fetch_fails")) and not case["ignore"],
+                show=glue.cp(shown) if shown else [0], show_clean=glue.cp(shown_clean) if shown_clean else [0],
                 old=glue.cp(r2.old_version()) if r2.old_version() else [0], new=glue.cp(r2.new_version()) if (r2.exit == 0 and r2.new_version()) else [0],
                 exit=r2.exit, exit_clean=c2.exit, today=drive.TODAY.toordinal(), exc=(r1.exc or r2.exc or ""), setver=case["setver"],
                 dbg="pattern=%s cfg=%s all=%s branch=%s scope=%s ignore=%s: bumpver %s" % (case["pat"], case["cfgver"], case["all"], case["branch"], case["scope"], case["ignore"], " ".join(args)),
@@ -158,8 +164,8 @@ def run(ctx):
     events += drive.pmap(replay_real, [(c, i) for i, c in enumerate(real_cases)], hooks=False, chunksize=2)
     for i, e in enumerate(events):
         e["id"] = i + 1
-    keep = ("id", "ev", "P", "cfgver", "all", "branch", "scope", "uscope", "ignore", "show", "show_clean", "old", "new", "exit", "exit_clean", "today")
-    fails, st = tlc.validate_events("Trace_Text", [{k: e[k] for k in keep} for e in events], name="C09", xmx="3g")
+    keep = ("id", "ev", "P", "cfgver", "all", "branch", "scope", "uscope", "ignore", "fetch_fails", "show", "show_clean", "old", "new", "exit", "exit_clean", "today")
+    fails, st = tlc.validate_events("Trace_Text", [{k: e.get(k, False) if k == "fetch_fails" else e[k] for k in keep} for e in events], name="C09", xmx="3g")
     ctx.add_trace(st)
     by_id = {e["id"]: e for e in events}
     for f in fails:
